@@ -101,3 +101,65 @@ func OpSetHistory(o *Out, e *TypeEntry, v reflect.Value, pathA, pathB []string) 
 	vid := o.DeclareVal(e, vtok)
 	o.Op("HS " + e.Tid + " p " + vid + " | " + PathToks(pathA) + " | " + PathToks(pathB) + " | " + out)
 }
+
+// OpSetUint8Slices emits `U8` records for one compile-only shape (`F []uint8`, `F *[]uint8`, `F map[string][]uint8`):
+// Set of element 0 of a three-element slice with 7 in every source form — a number, decimal text as string and as
+// bytes, each by value and by pointer. `*[]byte` is at the same time a pointer to the field's own type. Judged by
+// the harness (the reflection-based machinery cannot tell `[]uint8` from `[]byte`): stored | lost | err | panic | other.
+func OpSetUint8Slices(o *Out, e *TypeEntry) {
+	str, byt, u8, u32 := "7", []byte("7"), uint8(7), uint32(7)
+	srcs := []struct {
+		name string
+		v    any
+	}{{"uint8", u8}, {"*uint8", &u8}, {"uint32", u32}, {"*uint32", &u32}, {"string", str}, {"*string", &str}, {"bytes", byt}, {"*bytes", &byt}}
+	for _, src := range srcs {
+		p := reflect.New(e.Type)
+		f := p.Elem().FieldByName("F")
+		if !f.IsValid() {
+			return
+		}
+		path := []string{"F", "0"}
+		read := func() []byte { return nil }
+		switch e.Expr {
+		case "[]uint8":
+			f.SetBytes([]byte{1, 2, 3})
+			read = func() []byte { return f.Bytes() }
+		case "*[]uint8":
+			b := []byte{1, 2, 3}
+			f.Set(reflect.ValueOf(&b))
+			read = func() []byte {
+				if f.IsNil() {
+					return nil
+				}
+				return f.Elem().Bytes()
+			}
+		case "map[string][]uint8":
+			f.Set(reflect.ValueOf(map[string][]byte{"k": {1, 2, 3}, "other": {4}}))
+			path = []string{"F", "k", "0"}
+			read = func() []byte { return f.MapIndex(reflect.ValueOf("k")).Bytes() }
+		default:
+			return
+		}
+		out := "other"
+		func() {
+			defer func() {
+				if r := recover(); r != nil {
+					out = "panic"
+				}
+			}()
+			if err := e.Ins.Set(p.Interface(), src.v, path...); err != nil {
+				out = "err"
+				return
+			}
+			got := read()
+			switch {
+			case len(got) == 3 && got[0] == 7 && got[1] == 2 && got[2] == 3:
+				out = "stored"
+			case len(got) == 3 && got[0] == 1 && got[1] == 2 && got[2] == 3:
+				out = "lost"
+			}
+		}()
+		o.Op("U8 " + e.Name + " " + tokStr(e.Expr) + " " + src.name + " | " + out)
+		o.Count("uint8-slice-set:" + src.name)
+	}
+}
